@@ -306,7 +306,7 @@ func runC12(cfg *vc.Config, rep *vc.Report) {
 		} else {
 			// determinism: the same case again, fresh machine
 			o2 := runRaw(cs.Script, w, cs.FaultAt)
-			if outcomeString(o) != outcomeString(o2) {
+			if classString(o) != classString(o2) {
 				rep.Violate("nondeterministic-outcome", outcomeString(o)+" vs "+outcomeString(o2), i, cs)
 			}
 			if o.Class != ng.ClsRefused || o.Stage != "compile" {
@@ -321,6 +321,11 @@ func runC12(cfg *vc.Config, rep *vc.Report) {
 		}
 	})
 	checkCanaries(-1, c12case{})
+}
+
+// classString: what must be reproducible (the wording of an error message may depend on map iteration order).
+func classString(o realOutcome) string {
+	return fmt.Sprintf("%s|%s|%s|%s|%v", o.Class, o.Stage, ng.PostingsString(o.Postings), ng.MetaString(o.TxMeta), o.AccMeta)
 }
 
 func trimStack(s string) string {
